@@ -31,9 +31,9 @@ def table_cell(kind):
 
 
 def best_encoding(raw, native):
-    """raw[0] = buffer bytes, raw[1] = len (8 bytes little endian)"""
-    buf = raw[0]
-    n = sum(x << (8 * i) for i, x in enumerate(raw[1]))
+    """concrete playback: the buffer (one vector per byte, or one vector for the whole array), then len (8 bytes little endian)"""
+    buf = [x for part in raw[:-1] for x in part]
+    n = sum(x << (8 * i) for i, x in enumerate(raw[-1]))
     s = bytes(buf[:n])
     ans = native.ask('best_encoding %s' % OV.hexs(s))
     if all(0x30 <= c <= 0x39 for c in s):
